@@ -151,6 +151,7 @@ func Walk(node Node, f func(Node) bool) {
 	case *TestClause:
 		Walk(node.X, f)
 	case *DeclClause:
+		walkNilable(node.Variant, f)
 		walkList(node.Args, f)
 	case *ArrayExpr:
 		walkList(node.Elems, f)
